@@ -154,7 +154,7 @@ impl Judgement {
 /// One property = generator + concretisation + oracle.
 pub trait Property: Sync {
     type Abs: Debug + Clone + Send + 'static;
-    type Case: Serialize + DeserializeOwned + Debug + Clone + Send;
+    type Case: Serialize + DeserializeOwned + Debug + Clone + Send + 'static;
     fn id(&self) -> &'static str;
     fn strategy(&self, tier: Tier) -> BoxedStrategy<Self::Abs>;
     fn concretize(&self, a: &Self::Abs) -> Self::Case;
@@ -186,6 +186,20 @@ pub trait Property: Sync {
     fn hang_is_violation(&self) -> bool {
         false
     }
+    /// an allocation request that the system refuses (the process would abort)
+    /// is a violation of the property itself (C07, C10) when the request is
+    /// beyond anything the inputs could justify
+    fn alloc_failure_is_violation(&self) -> bool {
+        false
+    }
+}
+
+/// a refused request of at least this many bytes cannot be explained by memory
+/// pressure from neighbouring processes (the machine has less)
+pub const ABSURD_ALLOC: usize = 1 << 36;
+
+thread_local! {
+    static WORKER: std::cell::Cell<Option<usize>> = const { std::cell::Cell::new(None) };
 }
 
 /// Judge with the harness' own panics turned into HarnessBug.
@@ -281,10 +295,21 @@ pub fn write_replay<P: Property>(
     seed: u64,
     tier: Tier,
 ) -> PathBuf {
+    write_replay_id(p.id(), case, sig, msg, seed, tier)
+}
+
+pub fn write_replay_id<C: Serialize>(
+    id: &str,
+    case: &C,
+    sig: &str,
+    msg: &str,
+    seed: u64,
+    tier: Tier,
+) -> PathBuf {
     let dir = verif_dir().join("replays");
     let _ = std::fs::create_dir_all(&dir);
     let v = json!({
-        "property": p.id(),
+        "property": id,
         "sig": sig,
         "message": msg,
         "seed": seed,
@@ -294,7 +319,7 @@ pub fn write_replay<P: Property>(
     });
     let text = serde_json::to_string_pretty(&v).unwrap();
     let h = hash64(&text);
-    let path = dir.join(format!("{}-{:016x}.json", p.id(), h));
+    let path = dir.join(format!("{}-{:016x}.json", id, h));
     let _ = std::fs::write(&path, text);
     path
 }
@@ -314,7 +339,30 @@ pub fn explore<P: Property>(p: &P, tier: Tier, seed: u64) -> Outcome {
     let violations: Mutex<Vec<ViolationReport>> = Mutex::new(Vec::new());
     let harness_bugs: Mutex<Vec<String>> = Mutex::new(Vec::new());
     let progress = AtomicU64::new(0);
-    let slots: Vec<Mutex<Option<(Instant, P::Case)>>> = (0..workers).map(|_| Mutex::new(None)).collect();
+    let slots: std::sync::Arc<Vec<Mutex<Option<(Instant, P::Case)>>>> =
+        std::sync::Arc::new((0..workers).map(|_| Mutex::new(None)).collect());
+    {
+        let slots = slots.clone();
+        let id = p.id();
+        let is_violation = p.alloc_failure_is_violation();
+        crate::alloc::set_fail_hook(Some(Box::new(move |size| {
+            let case = WORKER
+                .with(|c| c.get())
+                .and_then(|w| slots[w].lock().ok().and_then(|g| g.as_ref().map(|(_, c)| c.clone())));
+            let msg = format!("the allocator refused a request of {} bytes (the process would abort)", size);
+            let path = match &case {
+                Some(c) => write_replay_id(id, c, "alloc-failure", &msg, seed, tier).display().to_string(),
+                None => "(no case in flight)".to_string(),
+            };
+            if is_violation && size >= ABSURD_ALLOC && case.is_some() {
+                println!("VIOLATION property={} replay={}", id, path);
+                println!("  sig=alloc-failure {}", msg);
+                std::process::exit(1);
+            }
+            eprintln!("HARNESS-PROBLEM property={} {} (inconclusive); case saved as {}", id, msg, path);
+            std::process::exit(2);
+        })));
+    }
     let done = AtomicBool::new(false);
     let remaining = AtomicU64::new(workers as u64);
     let limit_s: u64 = std::env::var("VERIF_CASE_TIMEOUT")
@@ -369,6 +417,7 @@ pub fn explore<P: Property>(p: &P, tier: Tier, seed: u64) -> Outcome {
                 .name(format!("w{}", w))
                 .stack_size(64 << 20)
                 .spawn_scoped(scope, move || {
+                    WORKER.with(|c| c.set(Some(w)));
                     let mut st = LocalStats::default();
                     // fixed batch: split round-robin over the workers
                     let fixed = p.fixed_cases(tier);
@@ -486,6 +535,7 @@ pub fn explore<P: Property>(p: &P, tier: Tier, seed: u64) -> Outcome {
                 .expect("spawn worker");
         }
     });
+    crate::alloc::set_fail_hook(None);
     Outcome {
         stats: merged.into_inner().unwrap(),
         violations: violations.into_inner().unwrap(),
@@ -509,7 +559,12 @@ pub fn run_regress<P: Property>(p: &P, st: &mut LocalStats) -> Vec<ViolationRepo
         if !name.starts_with(p.id()) || !name.ends_with(".json") {
             continue;
         }
-        match replay_file(p, &f, st) {
+        install_replay_fail_hook(p, &f);
+        start_replay_watchdog(p);
+        *REPLAY_SLOT.lock().unwrap() = Some((Instant::now(), f.clone()));
+        let rr = replay_file(p, &f, st);
+        *REPLAY_SLOT.lock().unwrap() = None;
+        match rr {
             Ok(Judgement::Violation { sig, msg }) => {
                 if known.matches(p.id(), &sig).is_some() {
                     let e = st.known.entry(sig).or_insert((0, msg));
@@ -694,10 +749,69 @@ pub fn run_check<P: Property>(p: &P, args: &CheckArgs, extra: Value) -> i32 {
     0
 }
 
+static REPLAY_SLOT: Mutex<Option<(Instant, PathBuf)>> = Mutex::new(None);
+static REPLAY_WATCHDOG: std::sync::Once = std::sync::Once::new();
+
+/// Watchdog for replays (the search has its own): a replay that does not
+/// return is reported like a case that does not return.
+fn start_replay_watchdog<P: Property>(p: &P) {
+    let id = p.id();
+    let is_violation = p.hang_is_violation();
+    let limit_s: u64 = std::env::var("VERIF_CASE_TIMEOUT")
+        .ok()
+        .and_then(|s| s.parse().ok())
+        .unwrap_or(120);
+    REPLAY_WATCHDOG.call_once(|| {
+        std::thread::spawn(move || loop {
+            std::thread::sleep(std::time::Duration::from_millis(250));
+            let g = REPLAY_SLOT.lock().unwrap();
+            if let Some((t, path)) = g.as_ref() {
+                if t.elapsed().as_secs() >= limit_s {
+                    if is_violation {
+                        println!("VIOLATION property={} replay={}", id, path.display());
+                        println!("  sig=no-return the call did not return within {} s", limit_s);
+                        std::process::exit(1);
+                    }
+                    eprintln!(
+                        "HARNESS-PROBLEM property={} replaying {} took longer than {} s (inconclusive)",
+                        id,
+                        path.display(),
+                        limit_s
+                    );
+                    std::process::exit(2);
+                }
+            }
+        });
+    });
+}
+
+fn install_replay_fail_hook<P: Property>(p: &P, path: &Path) {
+    let id = p.id();
+    let is_violation = p.alloc_failure_is_violation();
+    let shown = path.display().to_string();
+    crate::alloc::set_fail_hook(Some(Box::new(move |size| {
+        if is_violation && size >= ABSURD_ALLOC {
+            println!("VIOLATION property={} replay={}", id, shown);
+            println!("  sig=alloc-failure the allocator refused a request of {} bytes", size);
+            std::process::exit(1);
+        }
+        eprintln!(
+            "HARNESS-PROBLEM property={} the allocator refused a request of {} bytes while replaying {} (inconclusive)",
+            id, size, shown
+        );
+        std::process::exit(2);
+    })));
+}
+
 pub fn run_replay<P: Property>(p: &P, path: &Path) -> i32 {
     crate::sut::install_panic_hook();
+    install_replay_fail_hook(p, path);
+    start_replay_watchdog(p);
+    *REPLAY_SLOT.lock().unwrap() = Some((Instant::now(), path.to_path_buf()));
     let mut st = LocalStats::default();
-    match replay_file(p, path, &mut st) {
+    let rr = replay_file(p, path, &mut st);
+    *REPLAY_SLOT.lock().unwrap() = None;
+    match rr {
         Ok(Judgement::Pass) => {
             println!("replay {}: property holds on this case", path.display());
             0
